@@ -51,7 +51,7 @@ func init() {
 }
 
 var invalidConfigs = map[string][]string{
-	"go-version":      {"abc", "1", "1.x", "x.21", "1.2.3", "1.", ".5", "go1", "1,18", "v1.18", "go1.x"},
+	"go-version":      {"abc", "1", "1.x", "x.21", "1.2.3", "1.", ".5", "go1", "1,18", "v1.18", "go1.x", "gogo1.18", "g1.18", "o1.18", "goo1.18", "og1.18", "g", "o", "gog", "gogo", "Go1.18", "go 1.18", "go1.18go", "1.18 ", "golang1.18", "1.18e0", "0x1.18", "1.1_8"},
 	"failOn":          {"bogus", "dsl,bogus", "ALL", "import;dsl"},
 	"rules-no-match":  {"/nonexistent/verif-*.go", "nomatch-*.go", "GOOD,nomatch-*.go", "GOOD,GOOD,/nonexistent/x.go"},
 	"empty-selection": {"nosuchchecker", "#nosuchtag", ""},
